@@ -641,3 +641,95 @@ Qed.
 
 Print Assumptions rc_exact.
 Print Assumptions nothing_pinned.
+
+(* ================= C05: the acceptance predicate, and "a refused call changes nothing" ================= *)
+Lemma valid_shape_spec objs :
+  valid_shape objs = true <->
+  exists pre p l, objs = pre ++ [p; l] /\ is_fmt (snd p) = true /\ is_sink (snd l) = true.
+Proof.
+  unfold valid_shape. split.
+  - destruct (rev objs) as [|[lo lt] [|[po pt] rest]] eqn:Er; try discriminate.
+    intros H. apply andb_prop in H as [Hs Hf].
+    exists (rev rest), (po, pt), (lo, lt). split; [|split; assumption].
+    rewrite <- (rev_involutive objs), Er. cbn [rev]. rewrite <- app_assoc. reflexivity.
+  - intros [pre [[po pt] [[lo lt] [-> [Hf Hs]]]]]. rewrite rev_app_distr. cbn [rev app]. cbn in Hf, Hs. rewrite Hs, Hf. reflexivity.
+Qed.
+
+Definition denied_by_existing (b : broker) (ety pid : N) : Prop :=
+  exists old, pget (ety, pid) (b_pipes b) = Some old /\ p_pol old = PDeny.
+
+(* the statement of C05, transcribed: what a definition must satisfy to be registered *)
+Definition wf_spec (b : broker) (pid ety : N) (ids : list N) (pa : polarg) : Prop :=
+  pid <> 0%N /\ ety <> 0%N /\ ids <> [] /\ ~ In 0%N ids /\ pol_of pa <> None /\
+  ~ denied_by_existing b ety pid /\
+  exists objs, resolve ids (b_nodes b) = Some objs /\            (* every listed node is registered *)
+    exists pre p l, objs = pre ++ [p; l] /\                     (* at least two nodes *)
+      is_fmt (snd p) = true /\ is_sink (snd l) = true.          (* ... formatter(-filter) then sink at the end *)
+
+Theorem register_pipeline_ok_iff cf b pid ety ids pa :
+  snd (fst (step cf b (RegisterPipeline pid ety ids pa))) = ROk <-> wf_spec b pid ety ids pa.
+Proof.
+  cbn [step]. unfold wf_spec, denied_by_existing.
+  destruct (N.eqb pid 0) eqn:E1; cbn [orb].
+  { apply N.eqb_eq in E1. split; [discriminate|]. intros [H _]. contradiction. }
+  destruct (N.eqb ety 0) eqn:E2; cbn [orb].
+  { apply N.eqb_eq in E2. split; [discriminate|]. intros [_ [H _]]. contradiction. }
+  destruct ids as [|i0 it]; cbn [orb].
+  { split; [discriminate|]. intros [_ [_ [H _]]]. contradiction. }
+  assert (E0 : i0 :: it <> []) by discriminate.
+  remember (i0 :: it) as ids eqn:Eids. clear Eids.
+  destruct (memN 0 ids) eqn:E3.
+  { apply memN_In in E3. split; [discriminate|]. intros [_ [_ [_ [H _]]]]. contradiction. }
+  apply N.eqb_neq in E1, E2.
+  assert (E3' : ~ In 0%N ids) by (intros H; apply memN_In in H; congruence).
+  destruct (pol_of pa) as [p|] eqn:Ep.
+  2:{ cbn. split; [discriminate|]. intros [_ [_ [_ [_ [H _]]]]]. contradiction. }
+  destruct (pget (ety, pid) (b_pipes b)) as [old|] eqn:Eo.
+  - destruct (p_pol old) eqn:Epol.
+    + (* allow *)
+      destruct (resolve ids (b_nodes b)) as [objs|] eqn:Er.
+      * destruct (valid_shape objs) eqn:Ev; cbn [negb fst snd].
+        -- split; [intros _|reflexivity]. repeat (split; [assumption || discriminate|]).
+           split; [intros [o [Ho Hp]]; inversion Ho; subst; congruence|].
+           exists objs. split; [reflexivity|]. apply valid_shape_spec. exact Ev.
+        -- split; [discriminate|]. intros [_ [_ [_ [_ [_ [_ [o [Ho Hs]]]]]]]]. inversion Ho; subst o.
+           apply valid_shape_spec in Hs. congruence.
+      * cbn. split; [discriminate|]. intros [_ [_ [_ [_ [_ [_ [o [Ho _]]]]]]]]. discriminate.
+    + (* deny *) cbn. split; [discriminate|]. intros [_ [_ [_ [_ [_ [Hd _]]]]]]. exfalso. apply Hd. exists old. auto.
+  - destruct (resolve ids (b_nodes b)) as [objs|] eqn:Er.
+    + destruct (valid_shape objs) eqn:Ev; cbn [negb fst snd].
+      * split; [intros _|reflexivity]. repeat (split; [assumption || discriminate|]).
+        split; [intros [o [Ho _]]; discriminate|].
+        exists objs. split; [reflexivity|]. apply valid_shape_spec. exact Ev.
+      * split; [discriminate|]. intros [_ [_ [_ [_ [_ [_ [o [Ho Hs]]]]]]]]. inversion Ho; subst o.
+        apply valid_shape_spec in Hs. congruence.
+    + cbn. split; [discriminate|]. intros [_ [_ [_ [_ [_ [_ [o [Ho _]]]]]]]]. discriminate.
+Qed.
+
+(* a refused call leaves the registered nodes (objects, policies, counts) and the registered pipelines as they were *)
+Definition refused (o : op) (r : rclass) : Prop :=
+  match o with
+  | RemoveNode _ | RemovePipelineAndNodes _ _ => r <> ROk /\ r <> RCloseErr   (* a close error is a completed removal *)
+  | _ => r <> ROk
+  end.
+
+Theorem refusal_frame cf b o :
+  refused o (snd (fst (step cf b o))) ->
+  b_nodes (fst (fst (step cf b o))) = b_nodes b /\ b_pipes (fst (fst (step cf b o))) = b_pipes b /\
+  snd (step cf b o) = [].
+Proof.
+  destruct o as [id obj ty pa|id|pid ety ids pa|ety pid|ety pid]; cbn [step refused].
+  - destruct (N.eqb id 0); [auto|]. destruct (pol_of pa); [|auto].
+    destruct (nget id (b_nodes b)) as [u|]; [destruct (nu_pol u)|]; cbn; intros H; auto; congruence.
+  - destruct (N.eqb id 0); [auto|]. destruct (nget id (b_nodes b)) as [u|]; [|auto].
+    destruct (Nat.ltb 0 (nu_rc u)); [auto|]. cbn. destruct (cf (nu_obj u)); intros [H1 H2]; congruence.
+  - destruct (_ || _ || _ || _); [auto|]. destruct (pol_of pa); [|auto].
+    destruct (match pget (ety, pid) (b_pipes b) with Some old => _ | None => false end); [cbn; auto|].
+    destruct (resolve ids (b_nodes b)); [|cbn; auto]. destruct (negb (valid_shape l)); cbn; [auto|]. congruence.
+  - destruct (_ || _); [auto|]. destruct (negb _); [auto|]. destruct (pget (ety, pid) (b_pipes b)); cbn; [congruence|auto].
+  - destruct (_ || _); [auto|]. destruct (negb _); [auto|]. destruct (pget (ety, pid) (b_pipes b)) as [old|]; [|cbn; auto].
+    destruct (unregister_all _ _ _ _) as [[n c] ok]. cbn. destruct (ok && negb (existsb cf c)); intros [H1 H2]; congruence.
+Qed.
+
+Print Assumptions register_pipeline_ok_iff.
+Print Assumptions refusal_frame.
